@@ -222,6 +222,15 @@ class StreamModel:
     # -- checks -----------------------------------------------------------
 
     def check(self, op, out) -> None:
+        if out[0] == 'raised-chunk':
+            # nothing but the empty chunk was consumed
+            self.defer('result', op, 'TypeError(exceptions must derive from '
+                       'BaseException): an empty str chunk (packet with '
+                       'part of a character) in front of a signal was '
+                       'raised instead of the signal',
+                       'until:empty-chunk-raised:text')
+            return
+
         if not self.strict:
             self.check_weak(op, out)
             return
@@ -407,8 +416,14 @@ class StreamModel:
             spec = op[1] if kind == 'until' else ['s', '\n']
             e = earliest_end(self.enc, spec, v)
             if e is not None and e != len(v):
-                self.fail('missed-separator', op, 'separator ends at %d of '
-                          '%d returned' % (e, len(v)))
+                if okind == 'ret' and overlapping(spec) and \
+                        any(v.endswith(s) for s in spec[1]):
+                    self.defer('result', op, 'returned %d units although a '
+                               'separator already ends at %d' % (len(v), e),
+                               'until:overlapping-separators')
+                else:
+                    self.fail('missed-separator', op, 'separator ends at '
+                              '%d of %d returned' % (e, len(v)))
             if kind == 'until' and okind == 'ret' and e is None:
                 self.fail('result', op, 'no separator in result',
                           'weak-data')
@@ -450,6 +465,13 @@ async def do_op(reader, enc, op):
         return ('inc', exc.partial, exc.expected)
     except SIG_EXC as exc:
         return ('exc', exc_desc(exc))
+    except TypeError as exc:
+        # known (text sessions): an empty chunk in front of a queued signal
+        # makes readuntil() raise the chunk instead of the signal
+        if not enc or kind not in ('line', 'until') or \
+                'exceptions must derive from BaseException' not in str(exc):
+            raise
+        return ('raised-chunk',)
 
     return ('ret', v)
 
@@ -817,6 +839,12 @@ async def drain_coro(reader, model, enc, how, labels, eof_check):
             except SIG_EXC as exc:
                 model.check(['line'], ('exc', exc_desc(exc)))
                 continue
+            except TypeError as exc:
+                if not enc or 'exceptions must derive from BaseException' \
+                        not in str(exc):
+                    raise
+                model.check(['line'], ('raised-chunk',))
+                continue
             break
 
         if model.done():
@@ -838,7 +866,7 @@ async def drain_coro(reader, model, enc, how, labels, eof_check):
         eof_check(reader, model, op)
         guard -= 1
 
-        if not out[1]:
+        if len(out) < 2 or not out[1]:
             # an empty partial line while the other stream fills the shared
             # window completes without suspending: let the other reader run
             await asyncio.sleep(0)
@@ -2537,7 +2565,7 @@ def drain_strategy(tier: str):
 
 FAMILIES = [
     Family('reader', run_reader, strategy=reader_strategy,
-           budget={'quick': 260, 'thorough': 6000},
+           budget={'quick': 260, 'thorough': 12000},
            required={'all': ['sep-spans-packet', 'n>window', 'sep-tuple',
                              'sep-regex', 'incomplete', 'window-full',
                              'concurrent', 'chunk-1byte', 'exit-before-data',
@@ -2545,13 +2573,13 @@ FAMILIES = [
                              'final-iter', 'sep-found']},
            timeout_is_violation=True, case_timeout=120),
     Family('srvreader', run_srvreader, strategy=srvreader_strategy,
-           budget={'quick': 110, 'thorough': 2000},
+           budget={'quick': 110, 'thorough': 4000},
            required={'all': ['strict', 'weak', 'exc-raised',
                              'exc-between-data', 'inc-before-exc',
                              'end-close', 'end-eof']},
            timeout_is_violation=True, case_timeout=120),
     Family('process', run_process, strategy=process_strategy,
-           budget={'quick': 110, 'thorough': 2500},
+           budget={'quick': 110, 'thorough': 5000},
            required={'all': ['exit-before-data', 'status-before-read',
                              'client-run', 'client-wait',
                              'client-communicate', 'timeout', 'input-checked',
@@ -2559,7 +2587,7 @@ FAMILIES = [
                              'end-signal', 'end-close']},
            timeout_is_violation=True, case_timeout=120),
     Family('redirect', run_redirect, strategy=redirect_strategy,
-           budget={'quick': 150, 'thorough': 2500},
+           budget={'quick': 150, 'thorough': 5000},
            # (25 endpoint kinds: each is only required of the thorough tier)
            required={'quick': ['data>window', 'late-redirect', 'proc-to-proc',
                                'no-recv_eof', 'no-send_eof', 'stdout-stream',
@@ -2572,7 +2600,7 @@ FAMILIES = [
                      ['stdin-' + k for k in SRC_KINDS]},
            timeout_is_violation=True, case_timeout=120),
     Family('drain', run_drain, strategy=drain_strategy,
-           budget={'quick': 60, 'thorough': 1500},
+           budget={'quick': 60, 'thorough': 2500},
            required={'all': ['drain-blocked', 'drain-immediate',
                              'closed-while-paused', 'finish-read',
                              'finish-peer-close', 'finish-cut',
